@@ -1,7 +1,8 @@
 """Reference shaper: best Unicode cmap, then every GSUB lookup referenced by feature 'ccmp'
-(LookupList order), ligature substitution (type 4, and type 7 extension wrappers) applied per the
-OpenType algorithm with lookup flag 0: at each position the LigatureSet of the current glyph is
-tried in stored order, first match wins."""
+(LookupList order), ligature substitution (type 4), single and multiple substitution (types 1, 2 -
+a one-component "ligature" rule compiles to type 1) and type 7 extension wrappers, applied per the
+OpenType algorithm with lookup flag 0: at each position the first sub-table that applies is used;
+the LigatureSet of the current glyph is tried in stored order, first match wins."""
 
 
 class ShapeError(Exception):
@@ -26,6 +27,18 @@ def shape(font, cps):
             for st in lk.SubTable:
                 if st.LookupType == 7:
                     st = st.ExtSubTable
+                if st.LookupType == 1:
+                    if gl[i] in st.mapping:
+                        gl[i] = st.mapping[gl[i]]
+                        break
+                    continue
+                if st.LookupType == 2:
+                    if gl[i] in st.mapping:
+                        out = list(st.mapping[gl[i]])
+                        gl[i : i + 1] = out
+                        i += len(out) - 1
+                        break
+                    continue
                 if st.LookupType != 4:
                     raise ShapeError("ccmp lookup of type %d" % st.LookupType)
                 ligs = st.ligatures.get(gl[i])
